@@ -675,6 +675,28 @@ func c11Apply(c *eng.Ctx, apply *ssa.Function) {
 	if n == 0 {
 		c.Bad("R-C11-3", apply, apply.Pos(), "applyUpdates", "new values are installed", "no store to cachedSecret.Secret in applyUpdates")
 	}
+	// every recorded new value is installed: with a non-nil update the next
+	// iteration is not reached without passing an install (no "same bytes,
+	// skip it": the version number would never be taken over)
+	if loop.Next != nil {
+		isInstall := func(x ssa.Instruction) bool {
+			for _, a := range storeAccesses(p) {
+				if a.In == x && a.Write && a.What == "cachedSecret.Secret" {
+					return true
+				}
+			}
+			return false
+		}
+		hit, path := eng.SearchX(root, loop.Next, eng.AssumeErr(loop.Val, false), isInstall, func(x ssa.Instruction) bool {
+			return x == ssa.Instruction(loop.Next)
+		})
+		c.Check(hit == nil, "R-C11-3", root, loop.Next.Pos(), "apply loop: a recorded new value", "is installed on every path before the next update is looked at", func() string {
+			if hit == nil {
+				return ""
+			}
+			return "the next iteration is reached without an install: " + p.PathStr(path)
+		}())
+	}
 	// single critical section: no unlock inside the loop
 	eng.InstrsDeep(root, func(_ *ssa.Function, in ssa.Instruction) {
 		if call, ok := in.(*ssa.Call); ok {
@@ -795,6 +817,24 @@ func c11Cadence(c *eng.Ctx) {
 	if run == nil {
 		c.Undecided("R-C11-7", nil, 0, "setec.(*Store).run", "anchor does not resolve")
 		return
+	}
+	// every turn of the poller's loop polls: no cycle avoids the Refresh call
+	// (a tick that is sat out stretches the period to a multiple of the interval)
+	refresh := p.Method(setecPkg, "Store", "Refresh")
+	hasRefresh := func(b *ssa.BasicBlock) bool {
+		for _, in := range b.Instrs {
+			if call, ok := in.(*ssa.Call); ok {
+				if cal := eng.Callee(&call.Call); cal != nil && (cal == refresh || (refresh != nil && eng.IsHelper(run, cal) && p.CallGraph().Reach(cal, nil)[refresh])) {
+					return true
+				}
+			}
+		}
+		return false
+	}
+	if cyc := eng.CycleAvoiding(run, hasRefresh); cyc != nil {
+		c.Bad("R-C11-7", run, cyc[0].Instrs[0].Pos(), "cycle "+p.PathStr(cyc)+" of the poller", "every turn of the poller's loop runs a poll (background polls happen once per interval)", "this cycle passes no call of Refresh")
+	} else {
+		c.Ok("R-C11-7", run, run.Pos(), "cycles of the poller", "each passes the Refresh call")
 	}
 	// jitter = Intn(2*int(interval)/10) - int(interval)/10, ticker(interval + jitter)
 	var intervalP *ssa.Parameter
